@@ -321,6 +321,9 @@ def elem_pos(fn, op):
                     return int(m.group(1))
             l = pl[0]
             continue
+        if rv[0] == "ref" and len(rv[2]) == 1:
+            l = rv[2][0]
+            continue
         return None
     return None
 
@@ -391,9 +394,14 @@ def iterator_rule(ck, facts):
                 guarded = None
                 for cand in sorted(nxt.dominators().get(bi, ())):
                     bs = bool_switch(nxt, cand)
+                    cmp_ = None
                     if bs and bs[0][0] == "rvalue" and bs[0][1][0] == "bin" and bs[0][1][1] in ("Ne", "Eq"):
-                        a_, b_ = bs[0][1][2], bs[0][1][3]
-                        tgt = bs[1] if bs[0][1][1] == "Ne" else bs[2]
+                        cmp_ = (bs[0][1][1], bs[0][1][2], bs[0][1][3])
+                    elif bs and bs[0][0] == "call" and call_name_matches(bs[0][1], r"cmp::PartialEq(<.*>)?>?::(ne|eq)$") and len(bs[0][1]["args"]) == 2:
+                        cmp_ = ("Ne" if (bs[0][1]["f"].get("name") or "").endswith("::ne") else "Eq", bs[0][1]["args"][0], bs[0][1]["args"][1])
+                    if cmp_:
+                        a_, b_ = cmp_[1], cmp_[2]
+                        tgt = bs[1] if cmp_[0] == "Ne" else bs[2]
                         if edge_dominates(nxt, (cand, tgt), bi):
                             ka, kb = elem_pos(nxt, a_), elem_pos(nxt, b_)
                             fa, fb = field_idx(a_) if ka is None else None, field_idx(b_) if kb is None else None
